@@ -6,7 +6,7 @@ export GOFLAGS=-mod=mod GOPROXY=off GOSUMDB=off GOTOOLCHAIN=local CGO_ENABLED=1
 # go.sum of the harness must cover /repo's dependency graph
 sort -u /repo/go.sum go.sum -o go.sum 2>/dev/null || cp /repo/go.sum go.sum
 mkdir -p ../out/bin ../evidence
-for p in $(go list ./props/... 2>/dev/null); do
+for p in $(go list -tags verif ./props/... 2>/dev/null); do
   n=$(echo "$p" | sed 's#verifharness/##; s#/#_#g')
   go test -tags verif -c -vet=off -o ../out/bin/$n.test "$p" || exit 1
 done
